@@ -3,6 +3,7 @@ package ast
 import (
 	"bytes"
 	"strings"
+	"sync/atomic"
 
 	"github.com/ysugimoto/falco/v2/token"
 )
@@ -103,12 +104,12 @@ func (m *Meta) CloneWithoutComments() *Meta {
 	}
 }
 
-var idCounter uint64
+// idCounter is shared by every parser of the process (several simulators, parallel tests): atomic
+var idCounter atomic.Uint64
 
 func New(t token.Token, nest int, comments ...Comments) *Meta {
-	idCounter++
 	m := &Meta{
-		ID:       idCounter,
+		ID:       idCounter.Add(1),
 		Token:    t,
 		Nest:     nest,
 		Leading:  Comments{},
